@@ -46,7 +46,7 @@ impl Check for C06 {
         let costs = rc.costs.clone();
         let b = &rc.b;
         let cost = |t: TIdx<u32>| -> u8 { b.tidx_to_ag[usize::from(t)].map(|a| costs[a]).unwrap_or(1) };
-        if rc.cost_kind == "some-200-255" {
+        if rc.cost_kind.ends_with("200-255") {
             out.count("large_cost_tables", 1);
         }
         let gh = hash_str(&rc.ag.normal_form());
@@ -56,7 +56,7 @@ impl Check for C06 {
             let toks: Vec<TIdx<u32>> = inp.iter().map(|t| b.tok[*t]).collect();
             let si = syn_input(&toks, &mut rng, true);
             let detail = |x: String| json!({"grammar": b.src, "input": inp.iter().map(|t| rc.ag.tokens[*t].name.clone()).collect::<Vec<_>>(), "token_costs": rc.ag.tokens.iter().zip(costs.iter()).map(|(t, c)| json!([t.name, c])).collect::<Vec<_>>(), "obs": x});
-            let rec = match record_parse(b, &rc.st, &si, &cost, Budget::Steps(if rc.cost_kind == "some-200-255" { 600 } else { tier.sz(10_000, 40_000) })) {
+            let rec = match record_parse(b, &rc.st, &si, &cost, Budget::Steps(if rc.cost_kind.ends_with("200-255") { 600 } else { tier.sz(10_000, 40_000) })) {
                 Ok(r) => r,
                 Err(p) => {
                     out.violate("panic", &["parse"], format!("parse with recovery panicked: {p}"), detail(String::new()));
@@ -154,7 +154,7 @@ impl Check for C06 {
                 let mech_tags: Vec<&str> = if !bogus.is_empty() && bogus_all_by_mechanism && conflict_table { vec!["valid_only_with_reductions_under_real_lookahead", "table_has_resolved_conflicts"] } else { vec![] };
                 let rc_cost = *rep_costs.iter().next().unwrap();
                 let min_tok = *costs.iter().min().unwrap_or(&1) as u32;
-                if (rc_cost / min_tok.max(1)) > 6 || rc_cost > 600 {
+                if (rc_cost / min_tok.max(1)) > 6 || rc_cost > 2000 {
                     out.inconclusive("reported cost beyond the reference search's bound");
                     continue;
                 }
